@@ -26,7 +26,8 @@ RULE = ("cases = (class family, initial inputs, history of 2..14 operations "
         "RecurrenceNetwork / JointRecurrenceNetwork / "
         "InterSystemRecurrenceNetwork (five threshold/rate setters), "
         "VisibilityGraph (weights, link attributes), ResNetwork "
-        "(update_resistances), Surrogates (embedding, normalisation). "
+        "(update_resistances), Surrogates (embedding, normalisation), "
+        "ClimateData (set_window, set_global_window). "
         "Non-trivial = a query that was already issued with the same "
         "argument pattern before the most recent mutator and whose fresh-"
         "twin value differs from the value it had before; distinct = "
@@ -41,8 +42,9 @@ ASSUMPTIONS = [
     "attributes do not survive it (model: attributes cleared)",
     "ARPACK-based measures are not part of the query tables; float64 "
     "pipelines 1e-9, float32 pipelines 1e-5",
-    "ClimateData window histories are decided by C13 (every observable "
-    "after every window change against a model)",
+    "ClimateData window histories: values against a numpy model are C13's; "
+    "here every observable after every window change must equal that of a "
+    "freshly constructed object with the same window",
 ]
 
 
@@ -723,6 +725,65 @@ class SurFamily(Family):
         m["normalized"] = True
 
 
+
+# ------------------------------------------------------------ ClimateData
+
+class DataFamily(Family):
+    """ClimateData / Data: window changes (values against a numpy model are
+    decided by C13; here: equality with a freshly constructed object)."""
+    name = "ClimateData"
+
+    def __init__(self):
+        names = ["observable", "anomaly", "phase_mean", "phase_indices",
+                 "window", "shuffled_anomaly" if False else "observable"]
+        self.queries = {n: call(n) for n in set(names)}
+        self.queries["grid.time"] = lambda o, m: o.grid.grid()["time"]
+        self.queries["grid.lat"] = lambda o, m: o.grid.lat_sequence()
+        self.queries["grid.lon"] = lambda o, m: o.grid.lon_sequence()
+        self.queries["grid.N"] = lambda o, m: o.grid.N
+        self.queries["grid.distance"] = lambda o, m: o.grid.distance()
+        self.queries["anomaly_selected_months([0,1])"] = \
+            call("anomaly_selected_months", [0, 1])
+        self.tol = {"grid.distance": 1e-6}
+        self.mutators = {"set_window": self.m_win,
+                         "set_global_window": self.m_glob}
+
+    def init_model(self, case):
+        X = np.array(case["X"], dtype=float)
+        return {"X": X, "lat": case["lat"], "lon": case["lon"],
+                "cycle": case["cycle"], "anom": bool(case["anom"]),
+                "win": None}
+
+    def build(self, m):
+        from pyunicorn.core import GeoGrid
+        from pyunicorn.climate import ClimateData
+        X = m["X"]
+        grid = GeoGrid(np.arange(float(len(X))),
+                       np.array(m["lat"], dtype=float),
+                       np.array(m["lon"], dtype=float), silence_level=3)
+        return ClimateData(observable=X.copy(), grid=grid,
+                           time_cycle=m["cycle"], anomalies=m["anom"],
+                           window=m["win"], silence_level=3)
+
+    def m_win(self, o, m, arg):
+        T = len(m["X"])
+        lat = sorted(m["lat"])
+        lon = sorted(m["lon"])
+        t0 = int(arg[0]) % T
+        t1 = min(T - 1, t0 + 1 + int(arg[1]) % T)
+        a = int(arg[2]) % len(lat)
+        b = int(arg[3]) % len(lon)
+        win = {"time_min": float(t0), "time_max": float(t1),
+               "lat_min": float(lat[0]), "lat_max": float(lat[a]),
+               "lon_min": float(lon[0]), "lon_max": float(lon[b])}
+        o.set_window(win)
+        m["win"] = win
+
+    def m_glob(self, o, m, arg):
+        o.set_global_window()
+        m["win"] = None
+
+
 FAMILIES = {}
 
 
@@ -740,6 +801,7 @@ def fam(name):
             "JointRecurrenceNetwork": JointFamily,
             "ResNetwork": ResFamily,
             "Surrogates": SurFamily,
+            "ClimateData": DataFamily,
         }[name]()
     return FAMILIES[name]
 
@@ -913,6 +975,23 @@ def sur_cases(draw):
             "ops": draw(ops_strategy("Surrogates", margs))}
 
 
+
+@st.composite
+def data_cases(draw):
+    n = draw(st.integers(2, 5))
+    T = draw(st.integers(6, 24))
+    la, lo = _coords(n)
+    X = draw(st.lists(st.lists(st.integers(-8, 8).map(lambda k: k / 4.0),
+                               min_size=n, max_size=n),
+                      min_size=T, max_size=T))
+    margs = {"set_window": st.tuples(*[st.integers(0, 30)] * 4).map(list),
+             "set_global_window": st.none()}
+    return {"family": "ClimateData", "X": X, "lat": draw(la),
+            "lon": draw(lo), "cycle": draw(st.sampled_from([1, 2, 3, 12])),
+            "anom": draw(st.integers(0, 3)) == 0,
+            "ops": draw(ops_strategy("ClimateData", margs))}
+
+
 def _sub(name, gen, q, t):
     return SubCheck(name, oracle, gen=gen, quick=q, thorough=t)
 
@@ -934,6 +1013,7 @@ SUBCHECKS = [
          lambda: rp_cases("JointRecurrenceNetwork"), (3, 80), (8, 800)),
     _sub("resistive", res_cases, (2, 80), (8, 800)),
     _sub("surrogates", sur_cases, (2, 80), (4, 1000)),
+    _sub("climate_data", data_cases, (2, 100), (4, 1500)),
 ]
 
 
@@ -1016,6 +1096,10 @@ def _pair_bases():
     out.append(({"family": "ResNetwork", "g": _G6,
                  "R": _attr6(6, False, 2)},
                 {"update_resistances": _VALS}))
+    out.append(({"family": "ClimateData", "X": data, "lat": lat6[:4],
+                 "lon": lon6[:4], "cycle": 12, "anom": False},
+                {"set_window": [[2, 9, 1, 2], [0, 30, 2, 1]],
+                 "set_global_window": [None]}))
     out.append(({"family": "Surrogates", "X": [x12, y12]},
                 {"embedding": [[2, 1], [3, 2]],
                  "normalize_original_data": [None]}))
